@@ -868,13 +868,13 @@ pub fn run_mcase(prop: &str, case: &MCase, ctx: &mut CaseCtx) -> Result<(), Viol
         }
         // (the list goes out as generated: C06 lists may name an address twice, which the group has to refuse)
         let _ = &m;
-        // (every second repeat of an address is spelled in upper case: not a normalised address, refused as well)
-        let mut seen_ix: BTreeMap<usize, usize> = BTreeMap::new();
-        let spelled: Vec<String> = case.voters.iter().map(|(i, _)| {
+        // (a repeat of an address is either verbatim or - at even positions of the list - spelled in upper case, which
+        // is not a normalised address: refused either way)
+        let mut seen_ix: BTreeSet<usize> = BTreeSet::new();
+        let spelled: Vec<String> = case.voters.iter().enumerate().map(|(pos, (i, _))| {
             let ix = *i as usize % N_ACTORS;
-            let n = seen_ix.entry(ix).or_insert(0);
-            *n += 1;
-            if *n == 2 { actors[ix].to_string().to_uppercase() } else { actors[ix].to_string() }
+            let repeat = !seen_ix.insert(ix);
+            if repeat && pos % 2 == 0 { actors[ix].to_string().to_uppercase() } else { actors[ix].to_string() }
         }).collect();
         let gmsg = cw4_group::msg::InstantiateMsg { admin: Some(admin.to_string()), members: case.voters.iter().zip(spelled.iter()).map(|((_, w), a)| Member { addr: a.clone(), weight: *w }).chain(silent_addrs.iter().zip(case.silent.iter()).map(|(a, w)| Member { addr: a.to_string(), weight: *w })).collect() };
         let g = match try_instantiate(&mut app, gcode, &faucet, &gmsg, "group") {
